@@ -270,8 +270,16 @@ def np_norm(A):
     return float(onp.sqrt(onp.tensordot(A, A)))
 
 
+def np_inv(A):
+    try:
+        return onp.linalg.inv(A)
+    except onp.linalg.LinAlgError:
+        return onp.full((3, 3), onp.nan)
+
+
 def hard_energy(e, h):
-    """Stored hardening energy (documented laws re-implemented)."""
+    """Stored hardening energy (documented laws re-implemented); NaN (never complex) outside the domain."""
+    e = onp.asarray(e, dtype=float)
     if h["model"] == "linear":
         return h["Y0"] * e + 0.5 * h["H"] * e * e
     if h["model"] == "voce":
@@ -281,6 +289,7 @@ def hard_energy(e, h):
 
 
 def hard_stress(e, h):
+    e = onp.asarray(e, dtype=float)
     if h["model"] == "linear":
         return h["Y0"] + h["H"] * e
     if h["model"] == "voce":
@@ -292,7 +301,7 @@ def kin_energy(de, dt, h):
     if not h["rate"]:
         return 0.0 * de
     m = h["m"]
-    r = onp.maximum(de, 0.0) / dt / h["epsDot0"]
+    r = onp.maximum(onp.asarray(de, dtype=float), 0.0) / dt / h["epsDot0"]
     return m / (m + 1) * h["S"] * h["epsDot0"] * dt * r ** ((m + 1) / m)
 
 
@@ -305,7 +314,7 @@ def kin_stress(de, dt, h):
 def j2_elastic_strain(kin, F, state):
     T = onp.asarray(state[1:10]).reshape(3, 3)
     if kin == "large":
-        return np_logstrain(F @ onp.linalg.inv(T))
+        return np_logstrain(F @ np_inv(T))
     if kin == "small":
         return np_sym(F - I3) - T
     return (np_symfun(F.T @ F, lambda w: w ** 0.25) - I3) / 0.5 - T      # Seth-Hill, m = 1/4
@@ -318,7 +327,7 @@ def visco_branches(state, nb):
 def visco_wneq(F, state, meta):
     w = 0.0
     for g, Fv in zip(meta["Gs"], visco_branches(state, len(meta["Gs"]))):
-        d = np_dev(np_logstrain(F @ onp.linalg.inv(Fv)))
+        d = np_dev(np_logstrain(F @ np_inv(Fv)))
         w += g * float(onp.tensordot(d, d))
     return w
 
@@ -577,7 +586,7 @@ class Point:
             ey = self.meta["Y0"] / self.meta["E"]
             if cls == "reverse" and self.dF_last is not None:
                 k = rng.choice([1, 2, 2])
-                dF = onp.linalg.matrix_power(onp.linalg.inv(self.dF_last), k)
+                dF = onp.linalg.matrix_power(np_inv(self.dF_last), k)
             elif cls == "atYield":
                 dF = self._at_yield_increment(make_def(geo, rng, rot=False))
             else:
@@ -588,7 +597,7 @@ class Point:
             if self._deform_only:                 # Deform (no time step) serves the limit / rotation clauses
                 mag = 10.0 ** rng.uniform(-3, -0.3)
             if cls == "reverse" and self.dF_last is not None:
-                dF = onp.linalg.matrix_power(onp.linalg.inv(self.dF_last), rng.choice([1, 2]))
+                dF = onp.linalg.matrix_power(np_inv(self.dF_last), rng.choice([1, 2]))
             else:
                 dF = make_def(geo, rng, rot=cls != "tiny")(mag)
         Fn = dF @ self.F
@@ -860,7 +869,7 @@ class Point:
                 if self.kind == "plastic" and self.m["kin"] == "large":
                     for st in (self.sc, self.sp):
                         if st is not None and onp.all(onp.isfinite(st)):
-                            Fe = F @ onp.linalg.inv(st[1:10].reshape(3, 3))
+                            Fe = F @ np_inv(st[1:10].reshape(3, 3))
                             g = min(g, eig_gap(Fe.T @ Fe))
                 elif self.kind == "plastic":
                     for st in (self.sc, self.sp):
@@ -868,7 +877,7 @@ class Point:
                             g = min(g, eig_gap(np_dev(j2_elastic_strain(self.m["kin"], F, st)) + I3))
                 elif self.kind == "viscous":
                     for Fv in visco_branches(self.sc, self.m["nBranches"]):
-                        Fe = F @ onp.linalg.inv(Fv)
+                        Fe = F @ np_inv(Fv)
                         g = min(g, eig_gap(Fe.T @ Fe))
             except Exception:
                 pass
@@ -1145,7 +1154,7 @@ def assign(behs_by_kind, plan, rng):
     return jobs, cases
 
 
-def shares(targets, n_sim, n_ex_extra=0, cap_ex=None):
+def shares(targets, n_sim, n_ex_extra=0, cap_ex=None, prefer=None):
     """Every exhaustive sequence goes to exactly one target of its kind (round robin after a seeded shuffle);
     every target also gets n_sim random walks (and n_ex_extra further exhaustive sequences)."""
     by_kind = {}
@@ -1160,6 +1169,8 @@ def shares(targets, n_sim, n_ex_extra=0, cap_ex=None):
                 random.Random(common.seed() + 101).shuffle(ex)
                 sim = list(behs["sim"])
                 rng.shuffle(sim)
+                if prefer:                             # stable: preferred histories first
+                    sim.sort(key=lambda b: 0 if prefer(b) else 1)
                 more = rng.sample(ex, min(n_ex_extra, len(ex))) if n_ex_extra else []
                 mine = ex[k::K]
                 if cap_ex and kind in cap_ex:          # (C08 uses the history kinds only to reach evolved states)
